@@ -160,10 +160,11 @@ def gen_case(rnd, model=None, dynamics=None, **kw):
         case['vi_post'] = rnd.choice([0.125, 0.25, 0.5, 1.0])
     if rnd.random() < 0.15:
         case['used'] = True          # the prototype is the network an earlier experiment left behind
-    if model in ('SIR', 'SEIR', 'SIS', 'SIRS', 'SIR_FixedRecovery') and rnd.random() < 0.15:      # not Opinion: the stored orientation of a spreader-spreader pair depends on the placing order (known finding, C01)
+    if model in ('SIR', 'SEIR', 'SIS', 'SIRS', 'SIR_FixedRecovery', 'SIS_FixedRecovery') and rnd.random() < 0.15:      # not Opinion: the stored orientation of a spreader-spreader pair depends on the placing order (known finding, C01)
         # index cases placed by an overridden initialCompartments(): an edge's two ends and one more node
         es = case['graph']['edges']
         case['reseed'] = (list(rnd.choice(es)) if es else []) + [rnd.choice(case['graph']['nodes'])]
+        case['reseed_via'] = rnd.choice(['initial', 'change'])      # through the seeding hook, or by plain changeCompartment calls
     nameable = ('SIR', 'SIS', 'SIRS', 'SIR_FixedRecovery', 'SIS_FixedRecovery')
     if model in nameable and rnd.random() < 0.25:
         # two named instances of disease models on one network (the whole-run Coq tie covers single instances only)
@@ -263,7 +264,7 @@ def run_case(case):
                 for n in list(net.nodes()):
                     if net.nodes[n][self.COMPARTMENT] == self.INFECTED:
                         self.postEvent(T_post, n, self.remove, name=self.REMOVED)
-    if case.get('reseed') and model in ('SIR', 'SEIR', 'SIS', 'SIRS', 'SIR_FixedRecovery', 'Opinion'):
+    if case.get('reseed') and model in ('SIR', 'SEIR', 'SIS', 'SIRS', 'SIR_FixedRecovery', 'SIS_FixedRecovery', 'Opinion'):
         # the documented hook overridden: default seeding, then chosen index cases (neighbours among them) are placed again
         base_cls, picks = cls, list(case['reseed'])
 
@@ -273,7 +274,11 @@ def run_case(case):
                 target = spec(model)['I']
                 for n in picks:
                     if n in self.network().nodes():
-                        self.changeInitialCompartment(n, target)
+                        if case.get('reseed_via') == 'change':
+                            if self.getCompartment(n) != target:
+                                self.changeCompartment(n, target)
+                        else:
+                            self.changeInitialCompartment(n, target)
     try:
         proc = cls(inst) if inst is not None else cls()
     except TypeError:
@@ -719,9 +724,12 @@ def direct_c08(case, obs):
     if model == 'SIvR':
         return []
     if case.get('second'):
-        # two named instances share the undecorated tOccupied / tHitting attributes by the library's own declaration,
-        # so the contact-tree clauses are per single instance (stated in the claim)
-        return []
+        # two named instances share the undecorated tOccupied / tHitting attributes by the library's own declaration, so
+        # the clauses about those are per single instance (stated in the claim); the occupied FLAG is each instance's own,
+        # and with the infection times read off the observed compartments the forest clauses are judged per instance
+        if obs['exception']:
+            return [{'signature': 'run-raised:' + model + ':' + obs['exception'].split(':')[0], 'detail': obs['exception']}]
+        return _dedup([x for c, o in views(case, obs) for x in direct_c08_instance(c, o)])
     if obs['exception']:
         return [{'signature': 'run-raised:' + model + ':' + obs['exception'].split(':')[0], 'detail': obs['exception']}]
     sp = spec(model)
@@ -808,6 +816,68 @@ def direct_c08(case, obs):
         if sorted(sk['nodes']) != sorted(nodes) or sorted(tuple(sorted(e)) for e in sk['edges']) != sorted(tuple(sorted((a, b))) for a, b, d in occ):
             v.append({'signature': 'skeleton-differs-from-occupied-forest:' + model, 'detail': {'skeleton': sk['edges'], 'occupied': [(a, b) for a, b, d in occ]}})
     return _dedup(v)
+
+
+def direct_c08_instance(case, obs):
+    """one named instance among several on a network: its own occupied edges (flag occupied@name) against the infection
+    times read off its own compartments - a forest, each infected non-seed node with exactly one occupied edge to a node
+    infected earlier, every other occupied edge at it leading to a node infected later, one seed per tree"""
+    model = case['model']
+    sp = spec(model)
+    if not sp['once']:
+        return []
+    v = []
+    snaps = obs['snaps']
+    occ_key = 'occupied@' + obs['inst']
+    nodes = obs['final']['nodes']
+    occ = [(a, b) for a, b, d in obs['final']['edges'] if d.get(occ_key)]
+    seeds = {n for n, c in snaps[0]['comps'].items() if c == sp['I']}
+    when = {n: None for n in seeds}            # None: infected from the start
+    for a, b in zip(snaps, snaps[1:]):
+        for n, c in b['comps'].items():
+            if a['comps'].get(n) == sp['S'] and c == sp['I']:
+                when.setdefault(n, b['t'])
+
+    def earlier(x, y):
+        return x in when and (when[x] is None or (when[y] is not None and when[x] < when[y]))
+    parent = {n: n for n in nodes}
+
+    def find(x):
+        while parent[x] != x:
+            parent[x] = parent[parent[x]]
+            x = parent[x]
+        return x
+    for a, b in occ:
+        ra, rb = find(a), find(b)
+        if ra == rb:
+            v.append({'signature': 'occupied-edges-contain-a-cycle:instance:' + model, 'detail': {'edge': (a, b), 'instance': obs['inst']}})
+        parent[ra] = rb
+    for n in nodes:
+        inc = [(a, b) for a, b in occ if n in (a, b)]
+        others = [b if a == n else a for a, b in inc]
+        if n not in when:
+            if inc:
+                v.append({'signature': 'never-infected-node-touches-occupied-edge:instance:' + model, 'detail': {'node': n, 'edges': inc, 'instance': obs['inst']}})
+            continue
+        ups = [m for m in others if earlier(m, n)]
+        if n in seeds:
+            if ups:
+                v.append({'signature': 'seed-has-an-infector:instance:' + model, 'detail': {'node': n, 'edges': inc, 'instance': obs['inst']}})
+        elif len(ups) != 1:
+            v.append({'signature': 'infected-node-without-unique-occupied-edge:instance:' + model,
+                      'detail': {'node': n, 'infected_at': when[n], 'incident_occupied': [(m, when.get(m, 'never')) for m in others], 'instance': obs['inst']}})
+        for m in others:
+            if m not in when or not (earlier(m, n) or earlier(n, m)):
+                v.append({'signature': 'occupied-edge-matches-no-infection:instance:' + model, 'detail': {'edge': (n, m), 'instance': obs['inst']}})
+    trees = {}
+    for n in nodes:
+        trees.setdefault(find(n), []).append(n)
+    for r, ns in trees.items():
+        if any(n in when for n in ns):
+            k = sum(1 for n in ns if n in seeds)
+            if k != 1:
+                v.append({'signature': 'tree-without-exactly-one-seed:instance:' + model, 'detail': {'tree': ns, 'seeds': k, 'instance': obs['inst']}})
+    return v
 
 
 def direct_c03(case, obs):
